@@ -5,6 +5,7 @@ import props_store
 import props_cache
 import props_life
 import props_keys
+import props_panic
 
 COMMON_ASSUMPTIONS = [
     "rustc's type checker / MIR construction and the fact extractor's serialisation are trusted",
@@ -86,6 +87,14 @@ PROPS = {
                 explanation="Closed-world argument: every site that removes or overwrites a store entry or releases a charge is inventoried (shard mutations, callers of try_remove / "
                             "clear / policy.remove / SampledLFU::remove) and each category's guard is checked: eviction/rejection only while room < 0, sweeper only for due, non-zero, "
                             "elapsed deadlines of the same key, expiry-index update moves exactly one key, an absent key is always inserted, insert fails only on buffer-full/closed."),
+    "C20": dict(fn=props_panic.check_C20, floor={"sync": 60, "async": 60},
+                explanation="Accepted configurations decided structurally: finalize returns InvalidNumCounters / InvalidMaxCost / InvalidBufferSize on the respective zero before any channel, "
+                            "policy or worker is created and hands the validated values on; every panic-capable site of the crate (bounds / division asserts, unwrap / expect, Vec indexing, explicit "
+                            "panics) is enumerated and must be discharged automatically (constant divisor, index bounded by construction, infallible Result by the may-Err analysis, builder options "
+                            "always Some, ...) or by an audited entry with its reason; sketch and Bloom sizing obligations folded over all powers of two; lock-order graph acyclic, nothing blocking "
+                            "and no unexpected user callback under a lock.",
+                assumptions=["overflow checks (debug builds only) on cost / counter arithmetic are not counted as panic sites: costs are user data outside the configuration space of C20",
+                             "the system clock does not step backwards (Time::elapsed / unix unwrap a SystemTimeError)"]),
 }
 
 NOT_APPLICABLE = {}
